@@ -135,7 +135,7 @@ Definition add_helper (kind label : bytes) (code : list bline) : list bline :=
 
 Definition helpers_of (s : wstate) : list bline :=
   let sch := w_sch s in
-  let sah := w_sah s || sch in
+  let sah := w_sah s in
   let sls := w_sls s || sch || sah in
   let slg := w_slg s || sch || sah in
   (if w_fwh s then add_helper (bs "file write") (bs "_fwh")
